@@ -18,6 +18,7 @@ ASSUMPTIONS = ["the generic submit_order accepts SELL+OPEN on a stock (finding F
 
 def gen(rnd, k):
     S = B.gen_market(rnd, ndays=rnd.randrange(10, 22), opts={"p_sus": 0.12, "p_delist": 0.4, "p_limit": 0.3})
+    S["_probe_validators"] = True
     cfgk = trading.gen_config(rnd, S, {"no_signal": True})
     cfgk["risk"] = {"validate_price": rnd.random() < 0.75, "validate_is_trading": rnd.random() < 0.75, "validate_cash": rnd.random() < 0.75,
                     "validate_self_trade": rnd.random() < 0.3}
@@ -107,7 +108,10 @@ def chain_sync(ctx, corr, tr, ix):
         if impl != want:
             ctx.witness("C16.1", {"kind": "wrong_decision", "expected": want, "got": impl}, "%s %s %s x %s (limit %s) on %s with switches %s: decision %s, the listed conditions say %s (listed %s, suspended %s, band [%s, %s], closable %s, cash %r)"
                         % (book, "BUY" if o["is_buy"] else "SELL", o["effect"], o["qty"], o["price"] if o["is_limit"] else None, day, sw, impl, want, mf["listed"], mf["suspended"], ld, lu, cl, cash), rp)
-        if (impl == "PASS") != (oid in pending):
+        if oid in tr.probe_orders:
+            ctx.stats["chain_asked_directly"] += 1
+            ctx.stats["chain_asked_directly_unlisted"] += int(not mf["listed"])
+        elif (impl == "PASS") != (oid in pending):
             ctx.witness("C16.1", {"kind": "decision_vs_submission", "got": impl}, "order %s: chain decision %s but %s" % (oid % 100000, impl, "it reached the broker" if oid in pending else "it never reached the broker"), rp)
     if lines and ctx.driver_ok:
         reps = vlib.ask_driver(lines)
@@ -122,7 +126,7 @@ def reject_frame_monitor(ctx, tr, ix):
     rp = monitors.replay_of(tr)
     rejects = collections_counter(tr)
     for c in tr.calls:
-        if c["api"] in ("deposit", "withdraw", "finance", "repay", "cancel_order", "combo_buy_rest_sell", "combo_future_close"):
+        if c["api"] in ("deposit", "withdraw", "finance", "repay", "cancel_order", "combo_buy_rest_sell", "combo_future_close", "combo_auction_two_fill"):
             continue
         ctx.evaluations += 1
         accepted = [o for o in c["orders"] if o["status"] != "REJECTED" or o["filled"]]
